@@ -355,7 +355,7 @@ fn mem_operand_address(opr: &bad64::Operand) -> Result<(il::Expression, MemOpera
         | bad64::Operand::Cond(_)
         | bad64::Operand::Label(_)
         | bad64::Operand::Name(_)
-        | bad64::Operand::StrImm { .. } => unreachable!("Memory operand is expected here"),
+        | bad64::Operand::StrImm { .. } => return Err(unsupported()),
     };
 
     Ok((address_expr, sideeffect))
